@@ -27,6 +27,10 @@ that rules are invariant under the commonest behaviour-preserving rewrites:
       also unrolls literal tuples of numbers/strings)
   N21 a local that is re-bound to numbers along one statement list (`start = 0; ...; start = 4; ...`) is written as the number
       in the statements between two bindings
+  N23 `if A: ..; x = E1 else: ..; x = E2` followed by `if x: BODY` (x used nowhere else)  ->  the test is sunk into the branches:
+      `if A: ..; if E1: BODY  else: ..; if E2: BODY`
+  N24 a running maximum/minimum spelled as a guarded assignment: `if E > T: T = E` -> `T = max(T, E)` (mirror image for min);
+      `if T is None or E < T: T = E` -> `if T is None: T = E else: T = min(T, E)`
   N19 `dict(k=v, ...)` (keywords only)  ->  `{"k": v, ...}`
   N6  `except T as e:` binding is kept, but the py2 idiom `e = sys.exc_info()[1]` as the first statement of a handler
       is rewritten to the binding form (`except T as e:`)
@@ -141,6 +145,52 @@ class Desugar(ast.NodeTransformer):
                 for s_ in n.body:
                     out.append(_SubstName(n.target.id, e).visit(copy.deepcopy(s_)))
             return out
+        return n
+
+    def visit_If(self, n):
+        # N24: a running maximum / minimum spelled as a guarded assignment
+        #   if E > T: T = E            ->  T = max(T, E)          (also T < E, >=, <=; mirror image for min)
+        #   if T is None or E < T: T = E   ->  if T is None: T = E  else: T = min(T, E)
+        # T is the assigned path, E a plain name / attribute path / number (evaluating it twice changes nothing)
+        self.generic_visit(n)
+        if n.orelse or len(n.body) != 1 or not isinstance(n.body[0], ast.Assign) or len(n.body[0].targets) != 1:
+            return n
+        asg = n.body[0]
+        T, E = asg.targets[0], asg.value
+        if not _is_path(T) or not (_is_path(E) or _is_num(E)):
+            return n
+
+        def same(a, b):
+            return _is_path(a) and _is_path(b) and _same_path(a, b) or (_is_num(a) and _is_num(b) and a.value == b.value)
+
+        def direction(t):
+            if not (isinstance(t, ast.Compare) and len(t.ops) == 1):
+                return None
+            l, r, op = t.left, t.comparators[0], t.ops[0]
+            if same(l, E) and same(r, T):
+                return "max" if isinstance(op, (ast.Gt, ast.GtE)) else ("min" if isinstance(op, (ast.Lt, ast.LtE)) else None)
+            if same(l, T) and same(r, E):
+                return "max" if isinstance(op, (ast.Lt, ast.LtE)) else ("min" if isinstance(op, (ast.Gt, ast.GtE)) else None)
+            return None
+
+        def fold(kind):
+            call = ast.Call(func=ast.Name(id=kind, ctx=ast.Load()), args=[_strip_ctx(copy.deepcopy(T)), copy.deepcopy(E)], keywords=[])
+            return ast.copy_location(ast.Assign(targets=[copy.deepcopy(T)], value=call), asg)
+        d = direction(n.test)
+        if d is not None:
+            new = fold(d)
+            ast.fix_missing_locations(new)
+            return new
+        t = n.test
+        if isinstance(t, ast.BoolOp) and isinstance(t.op, ast.Or) and len(t.values) == 2:
+            a, b = t.values
+            isnone = isinstance(a, ast.Compare) and len(a.ops) == 1 and isinstance(a.ops[0], ast.Is) and same(a.left, T) \
+                and isinstance(a.comparators[0], ast.Constant) and a.comparators[0].value is None
+            d = direction(b)
+            if isnone and d is not None:
+                new = ast.copy_location(ast.If(test=a, body=[asg], orelse=[fold(d)]), n)
+                ast.fix_missing_locations(new)
+                return new
         return n
 
     def visit_While(self, n):
@@ -351,6 +401,52 @@ class Desugar(ast.NodeTransformer):
             out.extend(new)
         return out
 
+    def _sink_flag_tests(self, stmts):
+        # N23: if A: ...; x = E1  else: ...; x = E2   followed by   if x: BODY   (x a plain name used nowhere else in the block)
+        #      ->  if A: ...; if E1: BODY   else: ...; if E2: BODY
+        out = []
+        i = 0
+        while i < len(stmts):
+            st = stmts[i]
+            nxt = stmts[i + 1] if i + 1 < len(stmts) else None
+            done = False
+            if isinstance(st, ast.If) and st.orelse and isinstance(nxt, ast.If) and not nxt.orelse and isinstance(nxt.test, ast.Name):
+                x = nxt.test.id
+
+                def last_assign(block):
+                    if block and isinstance(block[-1], ast.Assign) and len(block[-1].targets) == 1 \
+                            and isinstance(block[-1].targets[0], ast.Name) and block[-1].targets[0].id == x:
+                        return block[-1]
+                    if block and isinstance(block[-1], ast.If) and block[-1].orelse:
+                        a, b = last_assign(block[-1].body), last_assign(block[-1].orelse)
+                        return (a, b) if a is not None and b is not None else None
+                    return None
+                la, lb = last_assign(st.body), last_assign(st.orelse)
+                others = [y for s_ in stmts[i + 2:] + list(nxt.body) for y in ast.walk(s_) if isinstance(y, ast.Name) and y.id == x]
+                inner_uses = sum(1 for s_ in [st] for y in ast.walk(s_) if isinstance(y, ast.Name) and y.id == x)
+
+                def count(a):
+                    return 1 if isinstance(a, ast.Assign) else (count(a[0]) + count(a[1]))
+                if la is not None and lb is not None and not others and inner_uses == count(la) + count(lb):
+                    def sink(block):
+                        last = block[-1]
+                        if isinstance(last, ast.Assign):
+                            new = ast.copy_location(ast.If(test=last.value, body=copy.deepcopy(nxt.body), orelse=[]), nxt)
+                            return block[:-1] + [new]
+                        last.body = sink(last.body)
+                        last.orelse = sink(last.orelse)
+                        return block
+                    st.body = sink(st.body)
+                    st.orelse = sink(st.orelse)
+                    ast.fix_missing_locations(st)
+                    out.append(st)
+                    i += 2
+                    done = True
+            if not done:
+                out.append(st)
+                i += 1
+        return out
+
     def _propagate_constants(self, stmts):
         # N21: in one statement list, a local bound to a number is written as that number in the following simple statements
         # (assignments, expression statements, returns, and the tests/headers of compound statements that do not rebind it), up
@@ -465,6 +561,7 @@ class Desugar(ast.NodeTransformer):
         visited = self._return_temps(visited)
         visited = self._split_parallel_assignments(visited)
         visited = self._dict_calls(visited)
+        visited = self._sink_flag_tests(visited)
         visited = self._propagate_constants(visited)
         visited = self._ifexp_statements(visited)
         visited = self._shortcircuit_statements(visited)
